@@ -18,14 +18,14 @@ Fixpoint act_st (p : bool) (l : list item) : option bool :=
   match l with
   | [] => Some p
   | ICall _ _ _ a :: r => if a || p then act_st p r else None
-  | IPanic _ 0 :: r => act_st true r
+  | IPanic _ 0 _ :: r => act_st true r
   | _ :: r => act_st p r
   end.
 
 Lemma act_st_app p a : forall b, act_st p (a ++ b) = match act_st p a with Some q => act_st q b | None => None end.
 Proof.
   revert p. induction a as [|i a IH]; intros p b; cbn [app act_st]; [reflexivity|].
-  destruct i as [m c t x| | | | | |m who| | |]; try apply IH.
+  destruct i as [m c t x| | | | | |m who cc| | | |]; try apply IH.
   - destruct (x || p); [apply IH|reflexivity].
   - destruct who; apply IH.
 Qed.
@@ -64,10 +64,10 @@ Record CInv (b : bool) (now m j : N) (s : xs) : Prop := {
 
 (* a record that is neither a call, nor a callback panic, nor a request *)
 Definition plain (i : item) : bool :=
-  match i with ICall _ _ _ _ | IPanic _ 0 | IShut _ _ _ | IQuiet _ => false | _ => true end.
+  match i with ICall _ _ _ _ | IPanic _ 0 _ | IShut _ _ _ | IQuiet _ => false | _ => true end.
 
 Lemma act_st_plain i p : plain i = true -> act_st p [i] = Some p.
-Proof. destruct i as [| | | | | |m who| | |]; try discriminate; try reflexivity. destruct who; [discriminate|reflexivity]. Qed.
+Proof. destruct i as [| | | | | |m who cc| | | |]; try discriminate; try reflexivity. destruct who; [discriminate|reflexivity]. Qed.
 
 Lemma plain_not_req i : plain i = true -> is_req i = false.
 Proof. destruct i; try discriminate; reflexivity. Qed.
@@ -91,7 +91,7 @@ Proof.
   - apply Forall_app. split; [exact d|constructor; [apply plain_tag, Hp|constructor]].
   - intros Hb. destruct (e Hb) as (p & e1 & e2). exists p. rewrite act_st_app, e1, (act_st_plain i p Hp). auto.
   - rewrite existsb_app. cbn [existsb]. rewrite (plain_not_req i Hp), !orb_false_r. exact f.
-  - rewrite shut_of_snoc, <- g. destruct i as [| | | | |mm ww [dd|]| | | |]; try discriminate; reflexivity.
+  - rewrite shut_of_snoc, <- g. destruct i as [| | | | |mm ww [dd|]| | | | |]; try discriminate; reflexivity.
 Qed.
 
 Lemma FrP_shut_inv b now m j s w' : FrP m (x_w s) w' -> shut (w_mod w' m) = shut (w_mod (x_w s) m) ->
@@ -117,7 +117,7 @@ Proof.
   - intros Hb. destruct (e Hb) as (p & e1 & e2). exists p. rewrite act_st_app, e1.
     destruct i; try discriminate; cbn [act_st]; auto.
   - rewrite Hs, existsb_app. cbn [existsb]. rewrite Hr, orb_true_r.
-    destruct i as [| | | | |mm ww [dd|]| |mm| |]; try discriminate; cbn [shut_step]; try reflexivity.
+    destruct i as [| | | | |mm ww [dd|]| |mm| | |]; try discriminate; cbn [shut_step]; try reflexivity.
     destruct (shut (w_mod (x_w s) m)); reflexivity.
   - rewrite Hs, shut_of_snoc, g. reflexivity.
 Qed.
@@ -136,6 +136,7 @@ Proof.
   - apply (CInv_req_item b now m j s (IShut m who (Some d)) (request m (Some (now + d)) (spend m (x_w s)))); [reflexivity| | |exact H].
     + eapply FrP_trans; [apply FrP_spend|apply FrP_request].
     + unfold request. rewrite mod_same. reflexivity.
+  - apply CInv_say_plain; [reflexivity|]. apply FrP_shut_inv; [apply FrP_set; reflexivity|rewrite mod_same; reflexivity|exact H].
 Qed.
 
 Lemma quiet_CInv b now m j s : CInv b now m j s -> CInv b now m j (quiet m s).
@@ -258,7 +259,7 @@ Proof.
   assert (G : CInv b now m j {| x_w := set_mod (x_w s) m (set_active (w_mod (x_w s) m) false); x_log := x_log s |}).
   { destruct H as [a b0 c0 d e f g]. constructor; cbn [x_w x_log]; rewrite ?mod_same; cbn [inc ready timers active shut set_active]; try assumption.
     intros Hb. exists true. split; [apply Hp; auto|auto]. }
-  destruct (c_catch c); cbn [fst]; [exact G|].
+  destruct (catchf (w_mod (x_w s) m)); cbn [fst]; [exact G|].
   destruct G as [a b0 c0 d e f g]. constructor; cbn [x_w x_log set_err w_mod] in *; assumption.
 Qed.
 
